@@ -12,6 +12,8 @@ pub mod c06;
 pub mod c07;
 pub mod c09;
 pub mod c10;
+pub mod c11;
+pub mod c12;
 pub mod c13;
 pub mod c14;
 pub mod c15;
@@ -34,6 +36,8 @@ pub fn dispatch(check: &str, rep: &mut Rep) -> bool {
         "c08" => c08::run(rep),
         "c09" => c09::run(rep),
         "c10" => c10::run(rep),
+        "c11" => c11::run(rep),
+        "c12" => c12::run(rep),
         "c13" => c13::run(rep),
         "c14" => c14::run(rep),
         "c15" => c15::run(rep),
